@@ -17,7 +17,7 @@ if os.path.exists('/tmp/mut_results.log'):
             hist.setdefault(key, []).append({'check': m.group(4), 'exit': int(m.group(5)), 'violations': int(m.group(6)), 'wall_s': int(m.group(7)),
                                              'failed_harnesses': m.group(8).split(), 'when': rnd})
 NOTES = {
- 'C06-a1': 'alloc build of skip(), stack mode: the smallest witness (83 9f ff a1 01 02 03 / 82 9f ff a1 00 00) lies beyond the all-strings harnesses of the alloc build (N <= 3). The thorough-tier harnesses c06_stack_mode_* (concrete stack-mode prefix + symbolic sibling) FIND it (FAILED after ~20-30 min, 16 GB), but the counterexample trace needed for the native replay exceeds the 40 GB playback cap, so the check ends inconclusive (exit 2), not VIOLATION.',
+ 'C06-a1': 'alloc build of skip(), stack mode: the smallest witness (83 9f ff a1 01 02 03 / 82 9f ff a1 00 00) lies beyond the all-strings harnesses of the alloc build (N <= 2). The thorough-tier harnesses c06_stack_mode_* (concrete stack-mode prefix + symbolic sibling) FIND it (FAILED after ~20-30 min, 16 GB), but the counterexample trace needed for the native replay exceeds the 40 GB playback cap, so the check ends inconclusive (exit 2), not VIOLATION.',
  'C02-b1': 'alloc build of skip() in stack mode with an 8-byte container length and a stray break: the defect is WORK proportional to the declared length (a hang), visible to CBMC only as an unwinding-assertion failure, which the driver classifies as inconclusive by design (a too-small unwind bound is normally a harness problem); no output/position assertion is violated within the bound.',
  'C20-a2': 'the error CLASS of minicbor-serde\'s DecodeError is not observable through its public API except via Display text; core::fmt is out of reach (C19) and differing messages are a permitted difference in C20\'s statement. Not a violation the checks can or should see.',
  'C10-b1': 'caught by the C06 check (c06_head_3b in the alloc build: skip() fails on a well-formed negative integer below i64::MIN); C10\'s own check replaces Decoder::skip by its R3 model, so a bug inside skip is invisible to it by construction.',
